@@ -1,8 +1,10 @@
 package rules
 
 import (
+	"fmt"
 	"go/token"
 	"go/types"
+	"strings"
 
 	"golang.org/x/tools/go/ssa"
 
@@ -23,6 +25,90 @@ func c10(r *core.Report) {
 	r.Rule("C10-COPY-THEN-MARK", "a part is copied before it is marked present", 1)
 	r.Rule("C10-OWN-COPY", "fragments are copied out of the borrowed packet buffer", 2)
 	ruleCopies(r)
+	r.Rule("C10-ID-ATOMIC", "a fragmented message's id is read and advanced in one critical section (or by one atomic add)", 2)
+	ruleFragIDAtomic(r, "C10-ID-ATOMIC")
+}
+
+// ruleFragIDAtomic: the receiver keeps partial messages by (source, message id); two messages of one
+// sender to one destination must therefore never carry the same id while both are in flight. fragswarm
+// allocates ids from a per-destination counter under a mutex: every path from the read of the counter
+// to the release of the mutex must pass the store that advances it (read and advance in ONE critical
+// section). mbapp allocates with a single atomic add. Shared by C10, C01 (no mixture of messages) and C14.
+func ruleFragIDAtomic(r *core.Report, ruleID string) {
+	p := r.P
+	tell := needFn(r, "s/fragswarm", "swarm.Tell")
+	ids := needField(r, "s/fragswarm", "swarm", "msgIDs")
+	if tell == nil || ids == nil {
+		return
+	}
+	isIDs := func(v ssa.Value) bool {
+		f, _ := core.FieldRead(v)
+		return core.SameField(f, ids)
+	}
+	isAdvance := func(in ssa.Instruction) bool {
+		mu, ok := in.(*ssa.MapUpdate)
+		return ok && isIDs(mu.Map)
+	}
+	isUnlock := func(in ssa.Instruction) bool {
+		ci, ok := in.(ssa.CallInstruction)
+		if !ok {
+			return false
+		}
+		if _, isDefer := in.(*ssa.Defer); isDefer {
+			return false
+		}
+		switch core.CalleeName(ci.Common()) {
+		case "(*sync.Mutex).Unlock", "(*sync.RWMutex).Unlock", "(*sync.RWMutex).RUnlock":
+			return true
+		}
+		return false
+	}
+	n := 0
+	for _, fn := range core.WithAnons(tell) {
+		for _, in := range core.AllInstrs(fn) {
+			lk, ok := in.(*ssa.Lookup)
+			if !ok || !isIDs(lk.X) {
+				continue
+			}
+			// the read that feeds the id (not the read inside `m[k]++` itself, which is followed
+			// immediately by its own update)
+			n++
+			reach := core.Reach(fn, lk, nil, isAdvance)
+			released := false
+			for i2 := range reach {
+				if isUnlock(i2) {
+					released = true
+				}
+			}
+			atReturn := false
+			for _, ret := range core.Returns(fn) {
+				if reach[ret] {
+					atReturn = true
+				}
+			}
+			r.Check(!released && !atReturn, ruleID, fmt.Sprintf("%s read of msgIDs #%d", core.FnName(fn), n), p.Pos(lk.Pos()), "every path from this read of the id counter reaches the store that advances it before the mutex is released", "the id counter is read here and the mutex is released (or the function returns) before the counter is advanced: two concurrent Tells to one destination read the same id, their fragments share one reassembly key and the receiver delivers a mixture of both messages")
+		}
+	}
+	if n == 0 {
+		r.Fail("%s: no read of fragswarm's msgIDs found in Tell (anchor stale)", ruleID)
+	}
+	// mbapp: ids come from one atomic add
+	if gc := needFn(r, "p/mbapp", "Swarm.getCounter"); gc != nil {
+		okAtomic := false
+		for _, in := range core.AllInstrs(gc) {
+			if c, ok := in.(*ssa.Call); ok && strings.HasPrefix(core.CalleeName(c.Common()), "sync/atomic.Add") {
+				okAtomic = true
+			}
+		}
+		for _, in := range core.AllInstrs(gc) {
+			if st, ok := in.(*ssa.Store); ok {
+				if f, _ := core.FieldOfAddr(st.Addr); f != nil && f.Name() == "counter" {
+					okAtomic = false
+				}
+			}
+		}
+		r.Check(okAtomic, ruleID, core.FnName(gc), p.Pos(gc.Pos()), "the group counter advances by one atomic add", "mbapp's group counter is not advanced by a single atomic add: concurrent sends can share a group id and their fragments are reassembled into one message")
+	}
 }
 
 // mapOpsOn returns the key operands of lookups, updates and deletes on the map field.
